@@ -478,12 +478,12 @@ def nest_once(rng, spec: dict, sub_name: str, *, allow_rename=True, allow_bind=T
         sigma = {}
         for e in private_inputs:
             if rng.random() < 0.5:
-                sigma[e] = e + "_x"
+                sigma[e] = f"{e}_x{sub_name[-1]}"
         exposed = inner.get("select") or [e for ns in inside for _, e in ref.node_outputs(ns)]
         emits_in = {e for ns in inside for e in ns.get("emit", [])}
         for e in exposed:
             if rng.random() < 0.4 and e not in emits_in:
-                sigma[e] = e + "_y"
+                sigma[e] = f"{e}_y{sub_name[-1]}"
         if sigma:
             info["renames"] = sigma
             rin = {k: v for k, v in sigma.items() if k in private_inputs}
@@ -517,8 +517,10 @@ def nest_once(rng, spec: dict, sub_name: str, *, allow_rename=True, allow_bind=T
                 flat["select"] = [sigma.get(x, x) for x in flat["select"]]
             # the inner name of a renamed, inner-bound input is free again at the outer level:
             # an unrelated outer node may use it for something else
+            taken = {ref.node_name(x) for x in flat["nodes"]}
+            used = {e2 for x in flat["nodes"] for _, e2 in ref.node_inputs(x)} | {e2 for x in flat["nodes"] for _, e2 in ref.node_outputs(x)}
             for e in list(sigma):
-                if e in (inner.get("bind") or {}) and rng.random() < 0.6:
+                if e in (inner.get("bind") or {}) and rng.random() < 0.6 and f"reuse_{e}" not in taken and e not in used:
                     extra = {"k": "fn", "name": f"reuse_{e}", "fid": f"reuse_{e}", "params": [{"n": e, "d": f"def:{e}"}], "outs": [f"reuse_{e}_out"]}
                     flat["nodes"].append(copy.deepcopy(extra))
                     nested["nodes"].append(copy.deepcopy(extra))
